@@ -608,6 +608,47 @@ def drv_repeat(tier, rng):
     return groups
 
 
+# ---------------------------------------------------------------- the repository's own example requests
+INT_KEYS = ('randomSeed', 'biasApplyRandomSeed', 'newCriterionRandomSeed', 'queryNumber')
+
+
+def to_unit(v, unit, key='', parent=''):
+    """a real request -> case numbers (integers of `unit`); None if some number is not representable"""
+    if isinstance(v, bool) or v is None or isinstance(v, str):
+        return v
+    if isinstance(v, (int, float)):
+        if key in INT_KEYS or (key in ('min', 'max') and parent != 'valuesRange'):
+            return v
+        y = v * unit
+        if abs(y - round(y)) > 1e-7 or abs(y) > 2 ** 30:
+            raise ValueError(key)
+        return int(round(y))
+    if isinstance(v, dict):
+        return {k: to_unit(x, unit, k, key) for k, x in v.items()}
+    if isinstance(v, list):
+        return [to_unit(x, unit, key, parent) for x in v]
+    return v
+
+
+def drv_examples(tier, rng):
+    repo = os.environ.get('VERIF_REPO', '/repo')
+    base = os.path.join(repo, 'httpClient', 'examples')
+    groups = []
+    if not os.path.isdir(base):
+        return groups
+    for name in sorted(os.listdir(base)):
+        f = os.path.join(base, name, 'request.json')
+        if not os.path.exists(f):
+            continue
+        try:
+            req = to_unit(json.load(open(f)), 1000)
+        except Exception:
+            continue
+        req.setdefault('biases', [])
+        groups.append([pcase(req, unit=1000, methodref=False, example=name, via='lib')])
+    return groups
+
+
 def nt_ties(o):
     """non-trivial for ranking shape: at least two entries and at least one tie or two levels"""
     r = o.get('resp', {}).get('result', [])
@@ -661,7 +702,7 @@ FAMILIES = {
     'pipeline': {
         'mc': 'MC_Decision', 'mc_cfg': {'quick': 'MC_Decision_quick.cfg', 'thorough': 'MC_Decision_thorough.cfg'},
         'mc_sample': {'quick': 100, 'thorough': 3000}, 'mc_workers': 12,
-        'mode': 'decide', 'trace': 'Trace_Decide', 'drivers': [drv_pipeline],
+        'mode': 'decide', 'trace': 'Trace_Decide', 'drivers': [drv_pipeline, drv_examples],
         'second_pass': twins_omission, 'second_rel': {'rel': 'perm', 'p': 'C15'},
     },
     'service': {
